@@ -379,12 +379,86 @@ pub fn run(ctx: &Ctx) -> Result<(), String> {
             }
         }
     }
+    // the real server binary started from a configuration FILE and from the environment for seeds
+    // whose hex spelling invites a YAML parser to read something else (all decimal digits, leading
+    // zeros, upper case): if it starts, the key it announces and certifies with is the key of the
+    // written seed
+    {
+        use crate::proc::{free_port, ServerProc, Source, Written};
+        let spellings: Vec<String> = vec![
+            format!("{}10", "0".repeat(62)),
+            format!("{}123", "0".repeat(61)),
+            format!("{}9223372036854775807", "0".repeat(45)),
+            format!("{}7", "0".repeat(63)),
+            "1234567890123456789012345678901234567890123456789012345678901234".to_string(),
+            format!("{}e5", "1".repeat(62)), // reads as a float in exponent notation
+            "A32049DA0FFDE0DED92CE10A0230D35FE615EC8461C14986BAA63FE3B3BAC3DB".to_string(),
+        ];
+        let mut cases = vec![];
+        for sp in &spellings {
+            for src in [Source::File, Source::Env] {
+                cases.push((sp.clone(), src));
+            }
+        }
+        let started = AtomicU64::new(0);
+        par_for(cases.len(), 1, |k, _| {
+            let (sp, src) = &cases[k];
+            let seed: [u8; 32] = match crypto::unhex(&sp.to_lowercase()).try_into() {
+                Ok(s) => s,
+                Err(_) => return,
+            };
+            let want_pk = crypto::public_key(&seed);
+            let port = free_port();
+            let mut w = Written::base(port);
+            w.set("seed", sp);
+            w.set("num_workers", "1");
+            let mut sp_ = match ServerProc::start(&w, *src, &[]) {
+                Ok(s) => s,
+                Err(e) => {
+                    *failed.lock().unwrap() = Some(e);
+                    return;
+                }
+            };
+            sp_.wait_started(1, std::time::Duration::from_secs(5));
+            evals.fetch_add(1, Relaxed);
+            nontrivial.fetch_add(1, Relaxed);
+            if sp_.try_status().is_some() {
+                return; // start refused: nothing is announced (C16's concern)
+            }
+            started.fetch_add(1, Relaxed);
+            let so = sp_.stdout();
+            let announced = so.lines().find(|l| l.contains("Long-term public key")).and_then(|l| l.split(" : ").last()).map(|x| x.trim().to_string());
+            let detail = |m: String| json!({"kind":"process-seed-spelling","seed_as_written":sp,"source":format!("{:?}", src),"announced":announced,"want":hex(&want_pk),"message":m});
+            if announced.as_deref() != Some(hex(&want_pk).as_str()) {
+                ctx.violation("announced-key-differs", "server-process", &format!("{:?}/seed-spelling", src), detail("the running server announces a key that is not the Ed25519 public key of the written seed".into()));
+            }
+            // and it certifies with that key
+            for v in [Version::Classic, Version::Ietf13] {
+                let sock = std::net::UdpSocket::bind("127.0.0.1:0").unwrap();
+                sock.set_read_timeout(Some(std::time::Duration::from_secs(2))).unwrap();
+                let req = rtref::responder::std_request(v, &crate::inproc::nonce(0xc10_5eed + k as u64, v.nonce_len()));
+                let _ = sock.send_to(&req, ("127.0.0.1", port));
+                let mut buf = [0u8; 4096];
+                if let Ok((l, _)) = sock.recv_from(&mut buf) {
+                    certs_seen.fetch_add(1, Relaxed);
+                    if let Err(c) = rtref::verifier::authentic(&buf[..l], &req, v, Some(&want_pk), rtref::verifier::SERVER_VIEW) {
+                        ctx.violation(c, "server-process", &format!("{}/seed-spelling", v.name()), detail(format!("a reply does not verify under the written seed's key: {}", c)));
+                    }
+                }
+            }
+            sp_.kill();
+        });
+        if let Some(e) = failed.lock().unwrap().take() {
+            return Err(e);
+        }
+        ctx.cov("process_seed_spellings", json!({"cases": cases.len(), "servers_that_started": started.load(Relaxed)}));
+    }
     ctx.cov("evaluations", json!(evals.load(Relaxed)));
     ctx.cov("distinct_nontrivial", json!(nontrivial.load(Relaxed)));
     ctx.cov("reply_certs_checked", json!(certs_seen.load(Relaxed)));
     ctx.cov("restart_seeds", json!(seeds.len()));
     ctx.cov("exhaustive", json!(true));
-    ctx.cov("rule", json!("key part: per seed of the structured alphabet (zero, ff, RFC 8032 vectors, single-bit, single-byte-value, seeded random) three constructions give public key == Ed25519(seed) (dalek direct, RFC 8032 anchored) and SRV == SHA-512(0xff||pk)[0..32]; all sequences of length <= L over {make_cert(classic), make_cert(ietf)} x {fresh online key, online key A again, online key B again} on ONE LongTermKey, each CERT = DELE{PUBK(the online key),MINT,MAXT} signed under that version's delegation context and NOT verifying under the other version's. Live part: per seed 4 restarts of a real in-process Server (two with fault_percentage 0, two with 50; replies parsed leniently so that deliberately invalid ones are examined too) x event histories (C09 alphabet); the announced key equals the reference key; the CERT of every datagram emitted by either responder passes the same check and its window contains the reply's MIDP; and the real Responder driven with batches in which some replies cannot be sent (unsendable return addresses): every reply that arrives, in that batch and all later ones, carries such a CERT. Non-trivial = a cert sequence or an emitted reply's CERT."));
+    ctx.cov("rule", json!("key part: per seed of the structured alphabet (zero, ff, RFC 8032 vectors, single-bit, single-byte-value, seeded random) three constructions give public key == Ed25519(seed) (dalek direct, RFC 8032 anchored) and SRV == SHA-512(0xff||pk)[0..32]; all sequences of length <= L over {make_cert(classic), make_cert(ietf)} x {fresh online key, online key A again, online key B again} on ONE LongTermKey, each CERT = DELE{PUBK(the online key),MINT,MAXT} signed under that version's delegation context and NOT verifying under the other version's. Live part: per seed 4 restarts of a real in-process Server (two with fault_percentage 0, two with 50; replies parsed leniently so that deliberately invalid ones are examined too) x event histories (C09 alphabet); the announced key equals the reference key; the CERT of every datagram emitted by either responder passes the same check and its window contains the reply's MIDP; and the real Responder driven with batches in which some replies cannot be sent (unsendable return addresses): every reply that arrives, in that batch and all later ones, carries such a CERT. Process: the real server started from file and ENV with seeds whose hex spelling a YAML parser may read differently (all digits, leading zeros, exponent form, upper case): if it starts, it announces and certifies with the written seed's key. Non-trivial = a cert sequence or an emitted reply's CERT."));
     ctx.sample(json!({"kind":"certseq","mask":"0b0110","len":4,"versions":["classic","ietf13","ietf13","classic"]}));
     ctx.sample(json!({"kind":"restart","restarts":4,"events":["C0","I1","step"]}));
     ctx.assume("ed25519-dalek arithmetic trusted (RFC 8032 vectors); seeds are a structured alphabet, not all 2^256");
